@@ -89,6 +89,20 @@ fn cmd_check(a: &[String]) -> Result<u8, String> {
     let exe = std::env::current_exe().map_err(|e| e.to_string())?;
     let seed = seed_from_env();
     println!("VERIF_SEED={seed} property={id} tier={tier}");
+    // hang-suspect files of earlier runs must not be mistaken for this run's (the confirmation step below looks for one)
+    {
+        let path = engine::replay_path(&id, seed, 0, "hang");
+        if let Some(dir) = std::path::Path::new(&path).parent() {
+            if let Ok(rd) = std::fs::read_dir(dir) {
+                for e in rd.filter_map(|e| e.ok()) {
+                    let n = e.file_name().to_string_lossy().into_owned();
+                    if n.starts_with(&format!("{id}-{seed}-")) && n.ends_with("-hang.json") {
+                        let _ = std::fs::remove_file(e.path());
+                    }
+                }
+            }
+        }
+    }
     let status = Command::new(&exe).args(["child", &id, &tier]).status().map_err(|e| format!("spawn: {e}"))?;
     match status.code() {
         Some(c @ (0 | 1 | 2)) => Ok(c as u8),
